@@ -98,7 +98,7 @@ CONSTANTS
 
 VARIABLES
   scn, ev,
-  hpc, hcur, pend, conns, failedAtt,    \* connHandler: control, message being processed, its two maps, cm.failedAttempts
+  hpc, hq, pend, conns, failedAtt,      \* connHandler: control, rest of the current loop iteration, its two maps, cm.failedAttempts
   stopFlag, quit,                       \* cm.stop, cm.quit closed
   idCount,                              \* cm.connReqCount
   rq,                                   \* the ConnReq objects and the goroutine working on each
@@ -106,14 +106,14 @@ VARIABLES
   nGna, nFail, closed,                  \* GetNewAddress calls, failures injected so far, conns closed by the manager
   cbs, cbSeen,                          \* callback goroutines spawned / callbacks that have started
   ops, spc, sidx, wpc,                  \* callers of Disconnect/Remove, of Stop, of Wait
-  lst, nIn, slots, held, inClosed,      \* listeners, inbound conns offered, cm.inboundSlots, conns holding a slot, inbound conns closed
+  lst, nIn, slots, held, inClosing, inClosed, \* listeners, inbound conns accepted, cm.inboundSlots, conns holding a slot, Close in progress, inbound conns closed
   bad                                   \* tags of statements found violated on the way (history)
 
-handlerV == <<hpc, hcur, pend, conns, failedAtt>>
+handlerV == <<hpc, hq, pend, conns, failedAtt>>
 flagV    == <<stopFlag, quit>>
 cbV      == <<cbs, cbSeen>>
 userV    == <<ops, spc, sidx, wpc>>
-inV      == <<lst, nIn, slots, held, inClosed>>
+inV      == <<lst, nIn, slots, held, inClosing, inClosed>>
 vars     == <<scn, ev, handlerV, flagV, idCount, rq, spawnNew, nGna, nFail, closed, cbV, userV, inV, bad>>
 
 NoEv   == <<>>
@@ -136,9 +136,7 @@ Req(id0, perm0, auto0, pc0, tok0) ==
    \* tok    address token (Addr)              nd     Dial calls made for the request
    \* trg    a Disconnect with WithTriggerReconnect retried the request
 
-Active(p) == p \in {"reg", "regd", "gna", "cstart", "dial", "indial", "sendok", "sendfail", "xrm", "xsend"}
-
-NoCur == [r |-> 0, st |-> "", hfc |-> FALSE, trig |-> FALSE]
+Active(p) == p \in {"reg", "regw", "regd", "gna", "cstart", "dial", "indial", "sendok", "sendfail", "xrm", "xsend"}
 
 ---------------------------------------------------------------------------
 (* Init: right after New(cfg) and Start(): handler running, listeners
@@ -146,7 +144,7 @@ NoCur == [r |-> 0, st |-> "", hfc |-> FALSE, trig |-> FALSE]
 
 InitRec(sc0) ==
   [ scn |-> sc0, ev |-> NoEv,
-    hpc |-> "run", hcur |-> NoCur, pend |-> {}, conns |-> {}, failedAtt |-> 0,
+    hpc |-> "run", hq |-> <<>>, pend |-> {}, conns |-> {}, failedAtt |-> 0,
     stopFlag |-> 0, quit |-> FALSE, idCount |-> 0,
     rq |-> [m \in 1..Len(sc0.manual) |-> Req(0, sc0.manual[m], FALSE, "none", m)],
     spawnNew |-> sc0.target,
@@ -154,24 +152,24 @@ InitRec(sc0) ==
     ops |-> <<>>, spc |-> IF sc0.stop THEN "idle" ELSE "none", sidx |-> 1,
     wpc |-> IF sc0.wait THEN "idle" ELSE "none",
     lst |-> [k \in 1..sc0.nlist |-> [open |-> TRUE, pc |-> "loop", c |-> 0]],
-    nIn |-> 0, slots |-> 0, held |-> {}, inClosed |-> {}, bad |-> {} ]
+    nIn |-> 0, slots |-> 0, held |-> {}, inClosing |-> {}, inClosed |-> {}, bad |-> {} ]
 
 InitFor(sc0) ==
   LET r == InitRec(sc0) IN
-  /\ scn = r.scn /\ ev = r.ev /\ hpc = r.hpc /\ hcur = r.hcur /\ pend = r.pend /\ conns = r.conns /\ failedAtt = r.failedAtt
+  /\ scn = r.scn /\ ev = r.ev /\ hpc = r.hpc /\ hq = r.hq /\ pend = r.pend /\ conns = r.conns /\ failedAtt = r.failedAtt
   /\ stopFlag = r.stopFlag /\ quit = r.quit /\ idCount = r.idCount /\ rq = r.rq /\ spawnNew = r.spawnNew
   /\ nGna = r.nGna /\ nFail = r.nFail /\ closed = r.closed /\ cbs = r.cbs /\ cbSeen = r.cbSeen
   /\ ops = r.ops /\ spc = r.spc /\ sidx = r.sidx /\ wpc = r.wpc
-  /\ lst = r.lst /\ nIn = r.nIn /\ slots = r.slots /\ held = r.held /\ inClosed = r.inClosed /\ bad = r.bad
+  /\ lst = r.lst /\ nIn = r.nIn /\ slots = r.slots /\ held = r.held /\ inClosing = r.inClosing /\ inClosed = r.inClosed /\ bad = r.bad
 
 \* the same as an action (TraceConnMgr starts the next trace with it)
 ResetTo(sc0) ==
   LET r == InitRec(sc0) IN
-  /\ scn' = r.scn /\ ev' = r.ev /\ hpc' = r.hpc /\ hcur' = r.hcur /\ pend' = r.pend /\ conns' = r.conns /\ failedAtt' = r.failedAtt
+  /\ scn' = r.scn /\ ev' = r.ev /\ hpc' = r.hpc /\ hq' = r.hq /\ pend' = r.pend /\ conns' = r.conns /\ failedAtt' = r.failedAtt
   /\ stopFlag' = r.stopFlag /\ quit' = r.quit /\ idCount' = r.idCount /\ rq' = r.rq /\ spawnNew' = r.spawnNew
   /\ nGna' = r.nGna /\ nFail' = r.nFail /\ closed' = r.closed /\ cbs' = r.cbs /\ cbSeen' = r.cbSeen
   /\ ops' = r.ops /\ spc' = r.spc /\ sidx' = r.sidx /\ wpc' = r.wpc
-  /\ lst' = r.lst /\ nIn' = r.nIn /\ slots' = r.slots /\ held' = r.held /\ inClosed' = r.inClosed /\ bad' = r.bad
+  /\ lst' = r.lst /\ nIn' = r.nIn /\ slots' = r.slots /\ held' = r.held /\ inClosing' = r.inClosing /\ inClosed' = r.inClosed /\ bad' = r.bad
 
 Init == \E s \in Scenarios : InitFor(s)
 
@@ -196,112 +194,144 @@ HFC(q, r, trig) ==
 AutoHeld(q, p, c) == {r \in DOMAIN q : q[r].auto /\ q[r].id \in p \cup c}
 
 ---------------------------------------------------------------------------
-(* connHandler.  One action per message type: the rendezvous of the sender's
-   send with the handler's receive, including the processing up to the first
-   effect another goroutine can see.  Where the code makes further such
-   effects in the same iteration (a state update after a callback was
-   spawned, handleFailedConn after a state update) the handler goes through
-   "hst" (ConnReq.updateState) and "hfc" (handleFailedConn) before it is back
-   at its select ("run").                                                  *)
+(* connHandler.  cm.requests is unbuffered: a send and the handler's receive
+   are one step (HRecv, HRecvOp), after which the sender goes on and the handler has
+   the message.  What the handler then does in this loop iteration is the
+   queue hq of its effects other goroutines can see, in code order, one per
+   step (HMicro); the handler is back at its select when hq is empty:
+     <<"msg", kind, x, retry, trig>>  the message itself: its processing up
+                          to and including the first visible effect
+     <<"st", r, s>>       connReq.updateState(s)  (with the handler-private
+                          bookkeeping that follows it)
+     <<"log", e, cb>>     a line of the debug log (observable when the user
+                          installed a logger) and the callback goroutine
+                          spawned behind it; dropped when Record = FALSE
+     <<"hfc", r, trig>>   cm.handleFailedConn(connReq, trig)
+   Effects nobody can see directly (the handler's maps, cm.failedAttempts,
+   retryCount) are applied with the step they follow; a goroutine spawn or a
+   conn.Close() is applied with the visible effect before it (being earlier
+   in the specification than in the code cannot be observed).              *)
 
-HRegister(r) ==           \* case registerPending
-  /\ hpc = "run" /\ rq[r].pc = "reg"
-  /\ rq' = [rq EXCEPT ![r].st = "pending", ![r].pc = "regd"]
+Logs(seq) == IF Record THEN seq ELSE SelectSeq(seq, LAMBDA m : m[1] # "log")
+HIdle == hpc = "run" /\ hq = <<>>
+
+HRecv(r) ==               \* a goroutine working on request r gets its message through
+  /\ HIdle /\ rq[r].pc \in {"reg", "sendok", "sendfail", "xsend"}
+  /\ hq' = << <<"msg", rq[r].pc, r, FALSE, FALSE>> >>
+  /\ rq' = [rq EXCEPT ![r].pc = IF rq[r].pc = "reg" THEN "regw" ELSE "idle"]   \* "regw": <-done
+  /\ spawnNew' = IF rq[r].pc = "xsend" THEN spawnNew + 1 ELSE spawnNew         \* Remove returned: NewConnReq() is next
+  /\ Hid
+  /\ UNCHANGED <<scn, hpc, pend, conns, failedAtt, flagV, idCount, nGna, nFail, closed, cbV, userV, inV, bad>>
+
+HRecvOp(o) ==             \* a caller of Disconnect / Remove gets its message through
+  /\ HIdle /\ ops[o].pc = "send"
+  /\ hq' = << <<"msg", "op", ops[o].id, ops[o].k = "disc", ops[o].trig>> >>
+  /\ ops' = [ops EXCEPT ![o].pc = "ret"]
+  /\ Hid
+  /\ UNCHANGED <<scn, hpc, pend, conns, failedAtt, flagV, idCount, rq, spawnNew, nGna, nFail, closed, cbV, spc, sidx, wpc, inV, bad>>
+
+PRegister(r, rest) ==     \* case registerPending
+  /\ rq' = [rq EXCEPT ![r].st = "pending", ![r].pc = IF @ = "regw" THEN "regd" ELSE @]   \* close(msg.done)
   /\ pend' = pend \cup {rq[r].id}
   /\ bad' = bad \cup (IF Cardinality(AutoHeld(rq, pend \cup {rq[r].id}, conns)) > scn.target THEN {"S2over"} ELSE {})
+  /\ hq' = rest
   /\ Hid
-  /\ UNCHANGED <<scn, hpc, hcur, conns, failedAtt, flagV, idCount, spawnNew, nGna, nFail, closed, cbV, userV, inV>>
+  /\ UNCHANGED <<conns, failedAtt, closed, cbs>>
 
-HConnected(r) ==          \* case handleConnected
-  /\ hpc = "run" /\ rq[r].pc = "sendok"
-  /\ LET id == rq[r].id
-         c  == rq[r].dc IN
-     IF id \notin pend
+PConnected(r, rest) ==    \* case handleConnected
+  LET id == rq[r].id
+      c  == rq[r].dc IN
+  /\ UNCHANGED bad
+  /\ IF id \notin pend
        THEN /\ closed' = closed \cup {c}          \* msg.conn.Close(): the request was canceled
-            /\ rq' = [rq EXCEPT ![r].pc = "idle"]
-            /\ UNCHANGED <<pend, conns, failedAtt, cbs>>
-       ELSE /\ rq' = [rq EXCEPT ![r].st = "established", ![r].cn = c, ![r].retry = 0, ![r].pc = "idle"]
+            /\ Obs(<<"h", "ignored", id>>)
+            /\ hq' = rest
+            /\ UNCHANGED <<rq, pend, conns, failedAtt, cbs>>
+       ELSE /\ rq' = [rq EXCEPT ![r].st = "established", ![r].cn = c, ![r].retry = 0]
             /\ conns' = conns \cup {id}
             /\ pend' = pend \ {id}
             /\ failedAtt' = 0
-            /\ cbs' = cbs \cup {<<"c", r, c>>}    \* go cm.cfg.OnConnection(connReq, conn)
+            /\ hq' = Logs(<< <<"log", <<"h", "connected", id>>, <<"c", r, c>> >> >>) \o rest
+            /\ cbs' = IF Record THEN cbs ELSE cbs \cup {<<"c", r, c>>}   \* go cm.cfg.OnConnection(connReq, conn): behind the log line
+            /\ Hid
             /\ UNCHANGED closed
-  /\ Hid
-  /\ UNCHANGED <<scn, hpc, hcur, flagV, idCount, spawnNew, nGna, nFail, cbSeen, userV, inV, bad>>
 
-HFailed(r) ==             \* case handleFailed
-  /\ hpc = "run" /\ rq[r].pc = "sendfail"
+PFailed(r, rest) ==       \* case handleFailed
+  /\ UNCHANGED <<pend, conns, failedAtt, closed, cbs, bad>>
   /\ IF rq[r].id \notin pend
-       THEN /\ rq' = [rq EXCEPT ![r].pc = "idle"]
-            /\ UNCHANGED <<hpc, hcur>>
-       ELSE /\ rq' = [rq EXCEPT ![r].st = "failing", ![r].pc = "idle"]     \* updateState(ConnFailing)
-            /\ hpc' = "hfc" /\ hcur' = [r |-> r, st |-> "", hfc |-> TRUE, trig |-> FALSE]
-  /\ Hid
-  /\ UNCHANGED <<scn, pend, conns, failedAtt, flagV, idCount, spawnNew, nGna, nFail, closed, cbV, userV, inV, bad>>
+       THEN /\ Obs(<<"h", "failignored", rq[r].id>>)
+            /\ hq' = rest
+            /\ UNCHANGED rq
+       ELSE /\ rq' = [rq EXCEPT ![r].st = "failing"]     \* updateState(ConnFailing)
+            /\ hq' = Logs(<< <<"log", <<"h", "failed", rq[r].id>>, <<>> >>, <<"hfc", r, FALSE>> >>) \o rest
+            /\ Hid
 
-\* case handleDisconnected{id, retry, triggerReconnect}; q0 is the request
-\* table with the sender's own step applied
-HDiscCore(q0, id, retry, trig) ==
-  LET rs == {r \in DOMAIN q0 : q0[r].id = id} IN
-  /\ rq' = IF rs # {} /\ id \in pend /\ id \notin conns
-             THEN [q0 EXCEPT ![CHOOSE x \in rs : TRUE].st = "canceled"]   \* a pending request is canceled
-             ELSE q0
-  /\ Hid
+PDisc(id, retry, trig, rest) ==   \* case handleDisconnected{id, retry, triggerReconnect}
+  LET rs == {r \in Objs : rq[r].id = id} IN
   /\ UNCHANGED failedAtt
   /\ IF rs = {} \/ id \notin pend \cup conns
-       THEN UNCHANGED <<hpc, hcur, pend, conns, closed, cbs, bad>>         \* "Unknown connid"
+       THEN /\ Obs(<<"h", "unknown", id>>)                                 \* log.Errorf("Unknown connid=%d")
+            /\ hq' = rest
+            /\ UNCHANGED <<rq, pend, conns, closed, cbs, bad>>
        ELSE
          LET r == CHOOSE x \in rs : TRUE IN
          IF id \notin conns
-           THEN pend' = pend \ {id} /\ UNCHANGED <<hpc, hcur, conns, closed, cbs, bad>>
+           THEN /\ rq' = [rq EXCEPT ![r].st = "canceled"]                  \* a pending request is canceled
+                /\ pend' = pend \ {id}
+                /\ hq' = Logs(<< <<"log", <<"h", "canceling", id>>, <<>> >> >>) \o rest
+                /\ Hid
+                /\ UNCHANGED <<conns, closed, cbs, bad>>
            ELSE
              LET nc == conns \ {id} IN
+             /\ Obs(<<"h", "disconnected", id>>)             \* "Disconnected from %v"
              /\ conns' = nc
-             /\ closed' = closed \cup {q0[r].cn}           \* connReq.conn.Close()
-             /\ cbs' = cbs \cup {<<"d", r, q0[r].cn>>}     \* go cm.cfg.OnDisconnection(connReq)
-             /\ UNCHANGED pend
+             /\ closed' = closed \cup {rq[r].cn}           \* connReq.conn.Close()
+             /\ cbs' = cbs \cup {<<"d", r, rq[r].cn>>}     \* go cm.cfg.OnDisconnection(connReq)
+             /\ UNCHANGED <<rq, pend>>
              /\ IF ~retry
-                  THEN hpc' = "hst" /\ hcur' = [r |-> r, st |-> "disconnected", hfc |-> FALSE, trig |-> FALSE] /\ UNCHANGED bad
-                  ELSE IF Cardinality(nc) < scn.target \/ q0[r].perm
-                    THEN hpc' = "hst" /\ hcur' = [r |-> r, st |-> "pending", hfc |-> TRUE, trig |-> trig] /\ UNCHANGED bad
+                  THEN hq' = << <<"st", r, "disconnected">> >> \o rest /\ UNCHANGED bad
+                  ELSE IF Cardinality(nc) < scn.target \/ rq[r].perm
+                    THEN /\ hq' = Logs(<< <<"st", r, "pending">>, <<"log", <<"h", "reconnecting", id>>, <<>> >>, <<"hfc", r, trig>> >>) \o rest
+                         /\ UNCHANGED bad
                     ELSE IF FixState
-                      THEN hpc' = "hst" /\ hcur' = [r |-> r, st |-> "disconnected", hfc |-> FALSE, trig |-> FALSE] /\ UNCHANGED bad
-                      ELSE bad' = bad \cup {"S1stale"} /\ UNCHANGED <<hpc, hcur>>
+                      THEN hq' = << <<"st", r, "disconnected">> >> \o rest /\ UNCHANGED bad
+                      ELSE bad' = bad \cup {"S1stale"} /\ hq' = rest
 
-HDiscOp(o) ==             \* the sender is a caller of Disconnect / Remove
-  /\ hpc = "run" /\ ops[o].pc = "send"
-  /\ ops' = [ops EXCEPT ![o].pc = "ret"]
-  /\ HDiscCore(rq, ops[o].id, ops[o].k = "disc", ops[o].trig)
-  /\ UNCHANGED <<scn, flagV, idCount, spawnNew, nGna, nFail, cbSeen, spc, sidx, wpc, inV>>
-
-HDiscRepl(r) ==           \* the sender is the replacement goroutine of request r: Remove(theId), then NewConnReq()
-  /\ hpc = "run" /\ rq[r].pc = "xsend"
-  /\ spawnNew' = spawnNew + 1
-  /\ HDiscCore([rq EXCEPT ![r].pc = "idle"], rq[r].id, FALSE, FALSE)
-  /\ UNCHANGED <<scn, flagV, idCount, nGna, nFail, cbSeen, userV, inV>>
-
-HSt ==                    \* connReq.updateState(...) [; pending[msg.id] = connReq]
-  /\ hpc = "hst"
-  /\ rq' = [rq EXCEPT ![hcur.r].st = hcur.st]
-  /\ pend' = IF hcur.st = "pending" THEN pend \cup {rq[hcur.r].id} ELSE pend
-  /\ IF hcur.hfc THEN hpc' = "hfc" /\ UNCHANGED hcur ELSE hpc' = "run" /\ hcur' = NoCur
-  /\ Hid
-  /\ UNCHANGED <<scn, conns, failedAtt, flagV, idCount, spawnNew, nGna, nFail, closed, cbV, userV, inV, bad>>
-
-HHfc ==                   \* cm.handleFailedConn(connReq, triggerReconnect)
-  /\ hpc = "hfc"
-  /\ LET h == HFC(rq, hcur.r, hcur.trig) IN
-     /\ rq' = h.q
-     /\ failedAtt' = h.fa
-     /\ Obs(h.e)
-  /\ hpc' = "run" /\ hcur' = NoCur
-  /\ UNCHANGED <<scn, pend, conns, flagV, idCount, spawnNew, nGna, nFail, closed, cbV, userV, inV, bad>>
+HMicro ==                 \* the next visible effect of the iteration
+  /\ hpc = "run" /\ hq # <<>>
+  /\ LET m    == Head(hq)
+         rest == Tail(hq) IN
+     CASE m[1] = "msg" ->
+            CASE m[2] = "reg"      -> PRegister(m[3], rest)
+              [] m[2] = "sendok"   -> PConnected(m[3], rest)
+              [] m[2] = "sendfail" -> PFailed(m[3], rest)
+              [] m[2] = "xsend"    -> PDisc(rq[m[3]].id, FALSE, FALSE, rest)
+              [] OTHER             -> PDisc(m[3], m[4], m[5], rest)
+       [] m[1] = "st" ->       \* connReq.updateState(...) [; pending[msg.id] = connReq]
+            /\ rq' = [rq EXCEPT ![m[2]].st = m[3]]
+            /\ pend' = IF m[3] = "pending" THEN pend \cup {rq[m[2]].id} ELSE pend
+            /\ hq' = rest
+            /\ Hid
+            /\ UNCHANGED <<conns, failedAtt, closed, cbs, bad>>
+       [] m[1] = "log" ->      \* log.Debugf(...)
+            /\ Obs(m[2])
+            /\ cbs' = IF m[3] = <<>> THEN cbs ELSE cbs \cup {m[3]}
+            /\ hq' = rest
+            /\ UNCHANGED <<rq, pend, conns, failedAtt, closed, bad>>
+       [] OTHER ->             \* cm.handleFailedConn(connReq, triggerReconnect)
+            LET h == HFC(rq, m[2], m[3]) IN
+            /\ rq' = h.q
+            /\ failedAtt' = h.fa
+            /\ Obs(h.e)
+            /\ hq' = rest
+            /\ UNCHANGED <<pend, conns, closed, cbs, bad>>
+  /\ UNCHANGED <<scn, hpc, flagV, idCount, spawnNew, nGna, nFail, cbSeen, userV, inV>>
 
 HQuit ==                  \* case <-cm.quit: the handler ends, cm.wg.Done()
-  /\ hpc = "run" /\ quit
+  /\ HIdle /\ quit
   /\ hpc' = "done"
   /\ Hid
-  /\ UNCHANGED <<scn, hcur, pend, conns, failedAtt, flagV, idCount, rq, spawnNew, nGna, nFail, closed, cbV, userV, inV, bad>>
+  /\ UNCHANGED <<scn, hq, pend, conns, failedAtt, flagV, idCount, rq, spawnNew, nGna, nFail, closed, cbV, userV, inV, bad>>
 
 ---------------------------------------------------------------------------
 (* the goroutine working on a request *)
@@ -322,7 +352,7 @@ NewStart ==               \* NewConnReq(): stop test, GetNewAddress == nil test,
   /\ UNCHANGED <<scn, handlerV, flagV, nGna, nFail, closed, cbV, userV, inV, bad>>
 
 GiveUp(r) ==              \* case <-cm.quit of a select with a send on cm.requests (or with <-done)
-  /\ quit /\ rq[r].pc \in {"reg", "regd", "sendok", "sendfail", "xsend"}
+  /\ quit /\ rq[r].pc \in {"reg", "regw", "regd", "sendok", "sendfail", "xsend"}
   /\ SetPc(r, "idle")                              \* a conn handed over by Dial is dropped, not closed
   /\ spawnNew' = IF rq[r].pc = "xsend" THEN spawnNew + 1 ELSE spawnNew
   /\ Hid
@@ -345,13 +375,16 @@ Gna(r, ok) ==             \* observable: cfg.GetNewAddress() called and returned
 
 CStart(r) ==              \* Connect(c): stop test, canceled test, id assignment
   /\ rq[r].pc = "cstart"
-  /\ IF stopFlag # 0 \/ rq[r].st = "canceled"
-       THEN SetPc(r, "idle") /\ UNCHANGED idCount
-       ELSE IF rq[r].id = 0
-         THEN /\ idCount' = idCount + 1
-              /\ rq' = [rq EXCEPT ![r].id = idCount + 1, ![r].pc = "reg"]
-         ELSE SetPc(r, "dial") /\ UNCHANGED idCount
-  /\ Hid /\ WorkerFrame
+  /\ IF stopFlag # 0
+       THEN SetPc(r, "idle") /\ Hid /\ UNCHANGED idCount
+       ELSE IF rq[r].st = "canceled"
+         THEN SetPc(r, "idle") /\ Obs(<<"cignored", rq[r].id>>) /\ UNCHANGED idCount   \* "Ignoring connect for canceled connreq"
+         ELSE IF rq[r].id = 0
+           THEN /\ idCount' = idCount + 1
+                /\ rq' = [rq EXCEPT ![r].id = idCount + 1, ![r].pc = "reg"]
+                /\ Hid
+           ELSE SetPc(r, "dial") /\ Hid /\ UNCHANGED idCount
+  /\ WorkerFrame
 
 DialCall(r) ==            \* observable: cfg.Dial(c.Addr) called
   /\ rq[r].pc = "dial"
@@ -421,7 +454,7 @@ URet(o) ==                \* observable: the call returns
   /\ Obs(<<"ret", o>>)
   /\ OpsFrame
 
-StopFrame == UNCHANGED <<scn, handlerV, idCount, rq, spawnNew, nGna, nFail, closed, cbV, ops, wpc, nIn, slots, held, inClosed, bad>>
+StopFrame == UNCHANGED <<scn, handlerV, idCount, rq, spawnNew, nGna, nFail, closed, cbV, ops, wpc, nIn, slots, held, inClosing, inClosed, bad>>
 
 StopCall ==               \* observable: Stop() called
   /\ spc = "idle" /\ spc' = "called"
@@ -479,18 +512,18 @@ InFrame == UNCHANGED <<scn, handlerV, flagV, idCount, rq, spawnNew, nGna, nFail,
 LLoop(k) ==               \* for atomic.LoadInt32(&cm.stop) == 0 { ... }; cm.wg.Done()
   /\ lst[k].pc = "loop"
   /\ lst' = [lst EXCEPT ![k].pc = IF stopFlag = 0 THEN "accept" ELSE "done"]
-  /\ Hid /\ UNCHANGED <<nIn, slots, held, inClosed, cbV>> /\ InFrame
+  /\ Hid /\ UNCHANGED <<nIn, slots, held, inClosing, inClosed, cbV>> /\ InFrame
 
 LAccept(k) ==             \* observable: listener.Accept() returns a connection
   /\ lst[k].pc = "accept" /\ lst[k].open /\ nIn < MaxAccept
   /\ nIn' = nIn + 1
   /\ lst' = [lst EXCEPT ![k].pc = "got", ![k].c = nIn + 1]
-  /\ Obs(<<"accept", k, nIn + 1>>) /\ UNCHANGED <<slots, held, inClosed, cbV>> /\ InFrame
+  /\ Obs(<<"accept", k, nIn + 1>>) /\ UNCHANGED <<slots, held, inClosing, inClosed, cbV>> /\ InFrame
 
 LAcceptErr(k) ==          \* Accept fails: the listener has been closed
   /\ lst[k].pc = "accept" /\ ~lst[k].open
   /\ lst' = [lst EXCEPT ![k].pc = "loop"]
-  /\ Hid /\ UNCHANGED <<nIn, slots, held, inClosed, cbV>> /\ InFrame
+  /\ Hid /\ UNCHANGED <<nIn, slots, held, inClosing, inClosed, cbV>> /\ InFrame
 
 LLimit(k) ==              \* limitInbound(conn); go cm.cfg.OnAccept(conn)
   /\ lst[k].pc = "got"
@@ -502,20 +535,26 @@ LLimit(k) ==              \* limitInbound(conn); go cm.cfg.OnAccept(conn)
               /\ cbs' = cbs \cup {<<"a", 0, c>>} /\ UNCHANGED inClosed
          ELSE inClosed' = inClosed \cup {c} /\ UNCHANGED <<slots, held, cbs>>   \* rejected: conn.Close()
   /\ lst' = [lst EXCEPT ![k].pc = "loop"]
-  /\ Hid /\ UNCHANGED <<nIn, cbSeen>> /\ InFrame
+  /\ Hid /\ UNCHANGED <<nIn, inClosing, cbSeen>> /\ InFrame
 
-InClose(c) ==             \* observable: the user closes an accepted connection (possibly again)
-  /\ <<"a", c>> \in cbSeen
+InClose(c) ==             \* observable: the user calls Close on an accepted connection (possibly again)
+  /\ <<"a", c>> \in cbSeen /\ c \notin inClosing
+  /\ inClosing' = inClosing \cup {c}
+  /\ Obs(<<"inclose", c>>) /\ UNCHANGED <<lst, nIn, slots, held, inClosed, cbV>> /\ InFrame
+
+InRelease(c) ==           \* limitedInboundConn.Close: Conn.Close(), releaseOnce.Do(release)
+  /\ c \in inClosing
+  /\ inClosing' = inClosing \ {c}
   /\ inClosed' = inClosed \cup {c}
   /\ IF c \in held THEN held' = held \ {c} /\ slots' = slots - 1 ELSE UNCHANGED <<held, slots>>
-  /\ Obs(<<"inclose", c>>) /\ UNCHANGED <<lst, nIn, cbV>> /\ InFrame
+  /\ Hid /\ UNCHANGED <<lst, nIn, cbV>> /\ InFrame
 
 ---------------------------------------------------------------------------
 
 Handler ==
-  \/ \E r \in Objs : HRegister(r) \/ HConnected(r) \/ HFailed(r) \/ HDiscRepl(r)
-  \/ \E o \in DOMAIN ops : HDiscOp(o)
-  \/ HSt \/ HHfc \/ HQuit
+  \/ \E r \in Objs : HRecv(r)
+  \/ \E o \in DOMAIN ops : HRecvOp(o)
+  \/ HMicro \/ HQuit
 
 \* steps of the manager that are not driven by the environment
 Internal ==
@@ -526,6 +565,7 @@ Internal ==
   \/ StopFlag \/ StopListener \/ StopQuit \/ StopRet \/ WaitRet
   \/ \E cb \in cbs : CbStart(cb)
   \/ \E k \in DOMAIN lst : LLoop(k) \/ LAcceptErr(k) \/ LLimit(k)
+  \/ \E c \in inClosing : InRelease(c)
 
 KnownIds == {rq[r].id : r \in Objs} \ {0}
 
@@ -550,14 +590,14 @@ Spec == Init /\ [][Next]_vars
 StName == {"pending", "failing", "canceled", "established", "disconnected"}
 
 TypeOK ==
-  /\ hpc \in {"run", "hst", "hfc", "done"} /\ stopFlag \in {0, 1} /\ quit \in BOOLEAN
+  /\ hpc \in {"run", "done"} /\ stopFlag \in {0, 1} /\ quit \in BOOLEAN
   /\ \A r \in Objs : rq[r].st \in StName
   /\ spawnNew \in Nat /\ slots \in Nat
 
 \* (S1) the handler's maps and the state of the request agree: exactly one state
 S1Agree ==
   /\ pend \cap conns = {}
-  /\ \A r \in Objs : (hpc = "hst" /\ hcur.r = r) \/     \* the handler is in the middle of moving r
+  /\ \A r \in Objs : (\E k \in DOMAIN hq : hq[k][1] = "st" /\ hq[k][2] = r) \/     \* the handler is in the middle of moving r
        /\ (rq[r].id # 0 /\ rq[r].id \in pend)  => rq[r].st \in {"pending", "failing"}
        /\ (rq[r].id # 0 /\ rq[r].id \in conns) => rq[r].st = "established"
        /\ rq[r].st = "established" => rq[r].id \in conns
@@ -579,8 +619,8 @@ S2Bound == Cardinality(AutoHeld(rq, pend, conns)) <= scn.target
 \* leaves pending+established on a failure or a loss (not by a user cancel and
 \* not during shutdown) a NewConnReq is under way
 Replacing(q) == {r \in DOMAIN q : q[r].pc \in {"xrm", "xsend", "xtimer"}}
-S2Replace == [][(hpc = "hfc" /\ hpc' = "run" /\ rq[hcur.r].auto /\ ~hcur.trig /\ stopFlag = 0)
-                  => hcur.r \in Replacing(rq')]_vars
+S2Replace == [][(hq # <<>> /\ hq' = Tail(hq) /\ Head(hq)[1] = "hfc" /\ rq[Head(hq)[2]].auto /\ ~Head(hq)[3] /\ stopFlag = 0)
+                  => Head(hq)[2] \in Replacing(rq')]_vars
 
 \* (S3) back-off of the armed retry timer
 S3Backoff == \A r \in Objs : rq[r].pc = "twait" =>
@@ -593,7 +633,7 @@ S3Grow == [][\A r \in Objs : (r \in DOMAIN rq' /\ rq'[r].pc = "twait" /\ rq[r].p
                                   /\ rq'[r].delay <= scn.cap]_vars
 \* once the handler has processed the Remove / cancel no new attempt starts
 S3NoRetry == [][\A r \in Objs : (rq[r].st \in {"canceled", "disconnected"} /\ rq[r].pc \in {"idle", "twait", "cstart", "xtimer", "xrm", "xsend"})
-                                  => rq'[r].pc \notin {"dial", "reg", "indial"}]_vars
+                                  => rq'[r].pc \notin {"dial", "reg", "regw", "indial"}]_vars
 S3OneDial == \A r \in Objs : (~rq[r].perm /\ ~rq[r].trg) => rq[r].nd <= 1
 
 \* (S4)
